@@ -49,7 +49,7 @@ def job_seq(item):
                 else: boxed_f = Ptr(Cell(mkfn(fid)), 'box')
                 ex.call('Runtime::register_function', [Ptr(rt), Ptr(Cell(rstr(op[1]))), boxed_f])
         ex.u_ops = ops
-        cname = FJ.choose_from(ex, 'callee', names); args = FJ.choose_from(ex, 'args', ARGSETS)
+        cname = FJ.choose_from(ex, 'callee', list(names) + (['values'] if 'abs' in names else [])); args = FJ.choose_from(ex, 'args', ARGSETS)
         pre = FJ.choose_from(ex, 'site', sites)
         ex.u_call = (cname, args, pre)
         text = pre[0] + f'{cname}(' + ', '.join(args) + ')'
@@ -153,7 +153,7 @@ def run(run):
     if not quick: jobs += [(3, NAMES, dl, k) for k in range(nopt(NAMES))] + [(4, ['abs', 'f'], dl, k) for k in range(nopt(['abs', 'f']))] + [(5, ['f'], dl, k) for k in range(nopt(['f']))]
     run.bounds = {'operation sequences': 'every sequence of <= 2 operations over {register(name, f), deregister(name), register_builtin_functions} with names {abs, length, f, g} and four recording custom functions '
                                          '(two bare closures, a CustomFunction with signature [number], one with signature [string] + variadic number); length 3 over names {abs, f}' + ('' if quick else '; length 3 over all names, 4 over {abs, f}, 5 over {f}'),
-                  'call expressions': f'name in {{abs, length, f, g}} with {len(ARGSETS)} argument lists (literals, current node, fields, expression references) on the document {json.dumps(DOC)}; for sequences of <= 1 (all names) / 2 (abs, f) operations the call also stands to the right of `zz | `, `zz.` (null left side) and `@ | `'}
+                  'call expressions': f'name in {{abs, length, f, g, values}} with {len(ARGSETS)} argument lists (literals, current node, fields, expression references) on the document {json.dumps(DOC)}; for sequences of <= 1 (all names) / 2 (abs, f) operations the call also stands to the right of `zz | `, `zz.` (null left side) and `@ | `'}
     run.outside = ['longer operation sequences, other names', 'HashMap is modelled as a dictionary (insert / remove / get); iteration order is never used by runtime.rs']
     run.assumes = ['built-in behaviour per harness/funcs.py']
     run_jobs(run, jobs, job_seq, 'mirsym: registry operation sequences + call vs "most recently registered function still registered"')
